@@ -22,6 +22,10 @@ type Watch struct {
 	// events holds excess events when they are bundled in a stream.PayloadEvents,
 	// until Next is called again.
 	events []stream.Event
+
+	// lastIndex is the index of the last event (batch) taken from the
+	// subscription; see nextEvent.
+	lastIndex uint64
 }
 
 // Next returns the next WatchEvent, blocking until one is available.
@@ -62,7 +66,6 @@ func (w *Watch) nextEvent(ctx context.Context) (*stream.Event, error) {
 		return &event, nil
 	}
 
-	var idx uint64
 	for {
 		e, err := w.sub.Next(ctx)
 		if err != nil {
@@ -88,10 +91,14 @@ func (w *Watch) nextEvent(ctx context.Context) (*stream.Event, error) {
 		//
 		// We should fix this problem at the root, but it's complicated, so for now
 		// we'll work around it.
-		if e.Index <= idx {
+		//
+		// The threshold lives in the Watch so that it holds across calls: the
+		// events in question arrive after the initial listing has been
+		// returned.
+		if e.Index <= w.lastIndex {
 			continue
 		}
-		idx = e.Index
+		w.lastIndex = e.Index
 
 		switch t := e.Payload.(type) {
 		case eventPayload:
